@@ -30,6 +30,11 @@ class CallMixin:
                 i_, j_ = z3.Int(fresh_name("i")), z3.Int(fresh_name("j"))
                 arr_, n_ = q.ty.arr(q.t), q.ty.len(q.t)
                 return SV(z3.ForAll([i_, j_], z3.Implies(z3.And(0 <= i_, i_ < j_, j_ < n_), z3.Select(arr_, i_) != z3.Select(arr_, j_))), T.Bool)
+            if name == "pick":
+                sset = self.ev(node.args[0], st)
+                pf = z3.Function("pick_" + T._mangle(sset.ty.name), sset.ty.sort(), sset.ty.elem.sort())
+                st.assume(z3.Implies(sset.t != sset.ty.empty(), z3.Select(sset.t, pf(sset.t))))
+                return SV(pf(sset.t), sset.ty.elem)
             if name in ("forall", "exists"):
                 return self.spec_quant(node, st, name == "forall")
             if name in self.spec_funcs and name not in st.env:
@@ -61,7 +66,11 @@ class CallMixin:
             raise Unsupported("old() without pre-state")
         s2 = st.copy()
         s2.env = dict(st.old)
-        return self.ev(arg, s2)
+        saved, self.result_sv = self.result_sv, None  # inside old(), `result` can only be a parameter of that name
+        try:
+            return self.ev(arg, s2)
+        finally:
+            self.result_sv = saved
 
     def spec_quant(self, node, st, universal):
         lam = node.args[0]
